@@ -20,6 +20,14 @@ truncated at EVERY byte offset 0..len and each truncated file is read with the r
                                 (own evaluation of the filter), in the file that was current at that moment, in order, with its
                                 final state; no partial record; the only other records allowed are unfinished copies of in-flight
                                 flows written when streaming is switched off
+  file_after_write_fault_consistent   stream saving with a write fault injected at the file layer (the raw file under the addon's
+                                BufferedWriter is wrapped) at an arbitrary byte offset of one flow's record -- short write, then
+                                ENOSPC; records smaller and larger than the 8 KiB writer buffer -- after which the fault clears and
+                                more flows finish.  Hooks are delivered through the addon manager like in production (addon
+                                exceptions are logged and swallowed, SystemExit is not).  Either mitmproxy terminates at the failing
+                                hook and the file is the finished flows plus at most one partial record at its very end, or it keeps
+                                running and every flow whose hook returned is completely in the file.  A swallowed write error, a
+                                finished flow missing, or bytes appended behind a partial record violate.
   explicit_save_file_complete   save.file (also with '+' append) leaves exactly the records of the saved flows
 
 Writers: the `save.file` command, stream saving through the Save addon's hooks, and a bare FlowWriter.
@@ -27,9 +35,12 @@ Writers: the `save.file` command, stream saving through the Save addon's hooks, 
 from __future__ import annotations
 
 import copy
+import errno
 import io
+import logging
 import os
 import shutil
+import sys
 import tempfile
 import traceback
 
@@ -41,6 +52,19 @@ from mitmproxy import udp
 from mitmproxy.addons import save
 from mitmproxy.io import FlowReader
 from mitmproxy.io import FlowWriter
+from mitmproxy.proxy.layers.dns import DnsErrorHook
+from mitmproxy.proxy.layers.dns import DnsRequestHook
+from mitmproxy.proxy.layers.dns import DnsResponseHook
+from mitmproxy.proxy.layers.http import HttpErrorHook
+from mitmproxy.proxy.layers.http import HttpRequestHook
+from mitmproxy.proxy.layers.http import HttpResponseHook
+from mitmproxy.proxy.layers.tcp import TcpEndHook
+from mitmproxy.proxy.layers.tcp import TcpErrorHook
+from mitmproxy.proxy.layers.tcp import TcpStartHook
+from mitmproxy.proxy.layers.udp import UdpEndHook
+from mitmproxy.proxy.layers.udp import UdpErrorHook
+from mitmproxy.proxy.layers.udp import UdpStartHook
+from mitmproxy.proxy.layers.websocket import WebsocketEndHook
 from mitmproxy.test import taddons
 
 from vf.core import exc_site, short
@@ -49,10 +73,10 @@ from vf.ref import c36_tnetstring as T
 
 PROPERTY = "C37"
 LEVEL = "fault_enumeration"
-BUDGET = {"quick": (100_000, 15), "thorough": (20_000_000, 200)}
+BUDGET = {"quick": (100_000, 13), "thorough": (20_000_000, 180)}
 MIN_CASES = {"quick": 2, "thorough": 2}  # one case = one file with every crash offset
 WORKERS = {"quick": 2, "thorough": 16}
-REQUIRED = ["truncated_read_exact_prefix", "stream_file_complete_after_hook", "explicit_save_file_complete", "files_fully_enumerated"]
+REQUIRED = ["truncated_read_exact_prefix", "stream_file_complete_after_hook", "write_fault_injected", "file_after_write_fault_consistent", "explicit_save_file_complete", "files_fully_enumerated"]
 ENGINE = "direct"
 TECHNIQUE = "exhaustive truncation of real writer output at every byte offset; second-descriptor observation after each stream-save hook"
 RULE = (
@@ -62,6 +86,7 @@ RULE = (
     "before type tag, index of the cut record, outcome clean-end or FlowReadException). Non-trivial: offsets strictly inside a record (a partial record exists)"
 )
 ASSUMPTIONS = [
+    "a write fault behaves like ENOSPC/EDQUOT/EFBIG: the OS accepts a prefix of the data (short write) and fails the following write; it may clear later",
     "a crash leaves a prefix of the bytes handed to the OS (no torn or reordered writes below the file-descriptor level)",
     "what a second file descriptor reads right after a hook returns is what would survive killing the process at that moment",
     "stream-save completion hooks: response/error for plain HTTP, websocket_end, tcp/udp end|error, dns response|error; a flow is due in the stream file iff its completion hook fires while save_stream_file is set and it matches save_stream_filter at that moment",
@@ -77,12 +102,40 @@ LEVEL_NOTE = "Trusted: CPython file objects / OS page cache visibility between d
 MAX_FILE = 20_000
 
 
+HOOKS = {
+    "request": HttpRequestHook, "response": HttpResponseHook, "error": HttpErrorHook, "websocket_end": WebsocketEndHook,
+    "tcp_start": TcpStartHook, "tcp_end": TcpEndHook, "tcp_error": TcpErrorHook,
+    "udp_start": UdpStartHook, "udp_end": UdpEndHook, "udp_error": UdpErrorHook,
+    "dns_request": DnsRequestHook, "dns_response": DnsResponseHook, "dns_error": DnsErrorHook,
+}
+
+
+class _Capture(logging.Handler):
+    def __init__(self):
+        super().__init__(logging.ERROR)
+        self.errors: list = []
+
+    def emit(self, record):
+        self.errors.append(record.getMessage())
+
+
 class Env:
     def __init__(self):
         self.tmp = tempfile.mkdtemp(prefix="vf-c37-")
         self.sa = save.Save()
         self.tctx = taddons.context(self.sa)
         self.n = 0
+        self.cap = _Capture()
+        lg = logging.getLogger("mitmproxy.addonmanager")
+        lg.addHandler(self.cap)
+        lg.propagate = False
+
+    def fire(self, hook, f):
+        """Deliver a hook the way production does: through the addon manager, which logs and swallows addon exceptions
+        (but not SystemExit).  -> list of addon errors that were swallowed while delivering it"""
+        self.cap.errors.clear()
+        self.tctx.master.addons.trigger(HOOKS[hook](f))
+        return list(self.cap.errors)
 
     def path(self):
         self.n += 1
@@ -94,6 +147,7 @@ class Env:
         except Exception:
             pass
         self.tctx.__exit__(None, None, None)
+        logging.getLogger("mitmproxy.addonmanager").removeHandler(self.cap)
         shutil.rmtree(self.tmp, ignore_errors=True)
 
 
@@ -322,7 +376,9 @@ def write_stream(ctx, env, flows):
         elif f not in inflight:
             inflight.append(f)
         history.append(f"{h}({G.kind_of(f)}#{flows.index(f)})")
-        getattr(sa, h)(f)
+        swallowed = env.fire(h, f)
+        if swallowed:
+            ctx.violation("stream-save-hook-raised", {"hook": history[-1], "history": history[-25:], "addon_errors": swallowed[:3]})
         ok = check_all(history[-1])
     if ok and cur is not None and r.random() < 0.7:
         unset_stream()
@@ -348,6 +404,172 @@ def write_stream(ctx, env, flows):
     if not os.path.exists(best):
         open(best, "wb").close()
     return best, states
+
+
+# ------------------------------------------------------------------------------------------------- write faults
+
+class FaultyRaw(io.RawIOBase):
+    """Stands in for the raw file under the addon's BufferedWriter.  With `budget` = n it behaves like a disk that accepts n
+    more bytes: a write crossing the limit is cut short (the kernel's short write), the next one fails with ENOSPC.
+    budget None = healthy."""
+
+    def __init__(self, raw):
+        self.raw = raw
+        self.budget = None
+        self.dead = False
+        self.failed_writes = 0
+
+    def writable(self):
+        return True
+
+    def write(self, b):
+        if self.dead:
+            raise OSError(errno.EIO, "writer abandoned")
+        if self.budget is None:
+            return self.raw.write(b)
+        if self.budget <= 0:
+            self.failed_writes += 1
+            raise OSError(errno.ENOSPC, "No space left on device")
+        n = self.raw.write(bytes(b)[: self.budget])
+        self.budget -= n
+        return n
+
+    def fileno(self):
+        return self.raw.fileno()
+
+    def close(self):
+        if not self.closed:
+            try:
+                self.raw.close()
+            finally:
+                super().close()
+
+
+def enlarge(r, f, size):
+    big = r.randbytes(size)
+    k = G.kind_of(f)
+    if k in ("http", "websocket"):
+        if f.response is not None and r.random() < 0.5:
+            f.response.content = big
+        else:
+            f.request.content = big
+    elif k in ("tcp", "udp"):
+        f.messages.append(type(f.messages[0])(True, big, 946681204.5) if f.messages else (tcp.TCPMessage if k == "tcp" else udp.UDPMessage)(True, big, 946681204.5))
+    else:
+        f.request.additionals.append(dns.ResourceRecord("big.example", 16, 1, 60, big))
+
+
+def write_faulty(ctx, env, flows):
+    """Stream saving with a write fault at an arbitrary byte offset inside one flow's record (short write, then ENOSPC,
+    also inside records larger than the 8 KiB writer buffer), after which the fault clears and more flows finish.  Hooks
+    go through the addon manager.  Oracle: either mitmproxy terminates at the failing hook (SystemExit) and the file is the
+    finished flows plus at most a partial record at its very end; or it keeps running and then every finished flow whose hook
+    returned is completely in the file.  Never: a hook that silently failed, or bytes behind a partial record."""
+    r = ctx.rng
+    sa, tctx = env.sa, env.tctx
+    path = env.path()
+    history = []
+    items = []
+    if r.random() < 0.25:
+        pre = G.gen_flows(r, 1, size="small")
+        with open(path, "wb") as fo:
+            FlowWriter(fo).add(pre[0])
+        items.append(("fin", snapshot(pre[0])))
+        tctx.configure(sa, save_stream_file="+" + path)
+    else:
+        tctx.configure(sa, save_stream_file=path)
+    real = sa.stream.fo
+    real.flush()
+    raw = FaultyRaw(real.raw)
+    sa.stream.fo = io.BufferedWriter(raw)
+    victim = r.randrange(0, len(flows) - 1)
+    size = r.choice([0, 0, 9_000, 20_000, 40_000])
+    if size:
+        enlarge(r, flows[victim], size)
+    exited = False
+    fault = None
+    devnull = io.StringIO()
+    for idx, f in enumerate(flows):
+        hooks = lifecycle(r, f)
+        for h in hooks:
+            last = h == hooks[-1]
+            if last:
+                if h.endswith("error") and not f.error:
+                    f.error = G.gen_error(r)
+                if h == "response" and f.response is None:
+                    f.response = G.gen_response(r, True)
+                f.comment = f"finished:{h}"
+            if last and idx == victim:
+                rec_len = len(T.encode(snapshot(f)))
+                where_ = r.choice(["start", "prefix", "anywhere", "anywhere", "before-tag"])
+                cut = {"start": 0, "prefix": r.randrange(0, 6), "before-tag": rec_len - 1}.get(where_, r.randrange(0, rec_len))
+                raw.budget = cut
+                fault = {"flow": f"{G.kind_of(f)}#{idx}", "record_bytes": rec_len, "bytes_accepted_before_fault": cut, "larger_than_writer_buffer": rec_len > 8192}
+            history.append(f"{h}({G.kind_of(f)}#{idx})" + ("[write fault]" if last and idx == victim else ""))
+            old_err, sys.stderr = sys.stderr, devnull
+            try:
+                swallowed = env.fire(h, f)
+            except SystemExit:
+                swallowed = []
+                exited = True
+            finally:
+                sys.stderr = old_err
+            if last and idx == victim:
+                raw.budget = None  # the fault clears (space freed)
+                ctx.count("write_fault_injected")
+                if exited:
+                    break
+                if swallowed:
+                    ctx.violation("write-fault-swallowed-writer-keeps-running", {"fault": fault, "history": history, "addon_errors": swallowed[:2]})
+            elif swallowed:
+                ctx.violation("stream-save-hook-raised", {"hook": history[-1], "history": history, "addon_errors": swallowed[:3]})
+            if last:
+                items.append(("fin", snapshot(f)))
+            ctx.count("stream_file_complete_after_hook")
+            if fault is None and not check_model(ctx, path, items, history[-1], history):
+                break
+        if exited:
+            break
+    # final verdict on the file as it is on disk now
+    data = disk(path)
+    fr, stop = T.frames(data)
+    fin = [st for k, st in items if k == "fin"]
+    wit = {"fault": fault, "history": history, "terminated_at_fault": exited, "finished_flows": len(fin), "complete_records_on_disk": len(fr), "bytes_after_last_complete_record": len(data) - stop}
+    ctx.count("file_after_write_fault_consistent")
+    got, outcome = [], "clean-end"
+    try:
+        for g in FlowReader(io.BytesIO(data)).stream():
+            got.append(g)
+    except exceptions.FlowReadException:
+        outcome = "flow-read-error"
+    except Exception as e:  # noqa
+        outcome = f"escape:{type(e).__name__}"
+    wit["loaded"] = len(got)
+    wit["load_outcome"] = outcome
+    good = len(got) == len(fin) and all(T.same(T.norm(g.get_state()), st) for g, st in zip(got, fin)) and not outcome.startswith("escape")
+    if exited:
+        # terminated: finished flows, then at most one partial record (a proper prefix of the victim's record)
+        if not good or len(fr) != len(fin) or len(data) - stop > fault["bytes_accepted_before_fault"]:
+            ctx.violation("file-inconsistent-after-write-fault-exit", wit)
+    else:
+        if not good or stop != len(data):
+            ctx.violation("finished-flows-unreadable-after-write-fault" if len(data) - stop or len(got) < len(fin) else "stream-file-differs-from-finished-flows", wit)
+    ctx.seen("fault_outcomes", ("exit" if exited else "kept-running", fault["larger_than_writer_buffer"] if fault else None))
+    # abandon the writer without letting buffered leftovers reach the file, reset the addon
+    raw.dead = True
+    try:
+        sa.stream.fo.close()
+    except Exception:  # noqa
+        pass
+    try:
+        raw.raw.close()
+    except Exception:  # noqa
+        pass
+    sa.stream = None
+    sa.current_path = None
+    sa.active_flows.clear()
+    tctx.configure(sa, save_stream_file=None)
+    return path, fin
 
 
 def write_command(ctx, env, flows):
@@ -468,8 +690,8 @@ def one_case(ctx, env, i, state):
     # rotate the writers and make sure every flow kind appears early in each worker
     kinds = [G.KINDS[(i + j + ctx.worker) % len(G.KINDS)] if j == 0 else r.choice(G.KINDS) for j in range(n)]
     flows = [G.gen_flow(r, k, size="small") for k in kinds]
-    writer = "stream" if hooks_only else ("stream", "command", "plain")[(i // 2) % 3]
-    path, states = {"stream": write_stream, "command": write_command, "plain": write_plain}[writer](ctx, env, flows)
+    writer = ("faulty" if i % 4 == 1 else "stream") if hooks_only else ("stream", "command", "plain")[(i // 2) % 3]
+    path, states = {"stream": write_stream, "command": write_command, "plain": write_plain, "faulty": write_faulty}[writer](ctx, env, flows)
     size = os.path.getsize(path)
     stop = False
     if hooks_only:
